@@ -22,6 +22,7 @@ type c08Cell struct {
 	Env     string            `json:"env"` // UPDATE_SNAPS
 	Sort    bool              `json:"sort,omitempty"`
 	Count   int               `json:"count,omitempty"`
+	CRLF    bool              `json:"crlf,omitempty"` // the multi-entry snapshot files have CR LF line ends (a checkout with eol=crlf)
 }
 
 func snap(cfg string) e3Call { return e3Call{API: "snap", Cfg: cfg} }
@@ -30,7 +31,8 @@ func c08Programs() map[string]e3Spec {
 	return map[string]e3Spec{
 		"P1-default-files": {
 			"TestA":        {Calls: []e3Call{snap("default"), snap("default")}, Subs: []e3Sub{{Name: "x", Calls: []e3Call{snap("default")}}, {Name: "xy", Calls: []e3Call{snap("default")}}}},
-			"TestAB":       {Calls: []e3Call{snap("default")}},
+			// (a sibling whose name merely extends TestA's, with subtests of its own: TestAB/x is no descendant of TestA)
+			"TestAB":       {Calls: []e3Call{snap("default")}, Subs: []e3Sub{{Name: "x", Calls: []e3Call{snap("default")}}, {Name: "y", Calls: []e3Call{snap("default")}}}},
 			"TestSub":      {Calls: []e3Call{snap("default")}, Subs: []e3Sub{{Name: "sub", Calls: []e3Call{snap("default")}}, {Name: "1", Calls: []e3Call{snap("default")}}}},
 			"Test1":        {Calls: []e3Call{snap("default")}},
 			"FuzzA/seed#0": {Calls: []e3Call{snap("default")}},
@@ -78,7 +80,7 @@ func c08Programs() map[string]e3Spec {
 var c08Patterns = []string{"", "TestA", "^TestA$", "TestA$", "A", "B", "Sub", "sub", "x", "^x$", "1", "TestA/x", "TestA/^x$", "/x", "A/x/y", "TestA|TestB",
 	"TestA/x|TestB", "^Test(A|B)$", "Test[AB]", ".", "TestZ", "NoSnap", "NoSnap|TestA$", "_-_1", "TestZ|sub"}
 
-var c08SkipCandidates = []string{"TestA", "TestB", "TestSub", "TestA/x", "TestB/x", "TestA/v1", "TestA/v1.1", "TestA/v1#x", "TestB/y", "TestC/only"}
+var c08SkipCandidates = []string{"TestA", "TestB", "TestSub", "TestA/x", "TestB/x", "TestA/v1", "TestA/v1.1", "TestA/v1#x", "TestB/y", "TestC/only", "TestAB/x"}
 
 // c08ApplySkips returns a copy of the program with the skip calls planted.
 func c08ApplySkips(prog e3Spec, skips map[string]string) e3Spec {
@@ -330,6 +332,9 @@ func runC08Mode(tier, scratch, replay string, nworkers int, mode string) *merged
 								}
 							}
 							cells = append(cells, c08Cell{Program: pn, Skips: ss, Run: pat, Env: env, Sort: srt, Count: 1})
+							if len(ss) > 0 && (pat == "" || pi%6 == 1) && !srt {
+								cells = append(cells, c08Cell{Program: pn, Skips: ss, Run: pat, Env: env, Sort: srt, Count: 1, CRLF: true})
+							}
 							if tier == "thorough" && !srt && (pi+si)%2 == 0 {
 								cells = append(cells, c08Cell{Program: pn, Skips: ss, Run: pat, Env: env, Count: 2})
 							}
@@ -408,6 +413,13 @@ func runC08Mode(tier, scratch, replay string, nworkers int, mode string) *merged
 			recorded[w.id][cell.Program] = r
 		}
 		e3WriteTree(snapDir, r.tree)
+		if cell.CRLF {
+			for f, data := range r.tree {
+				if es, err := e3Parse(data); err == nil && len(es) > 0 {
+					os.WriteFile(filepath.Join(snapDir, f), []byte(strings.ReplaceAll(data, "\n", "\r\n")), 0o644)
+				}
+			}
+		}
 		spec := c08ApplySkips(prog, cell.Skips)
 		env := map[string]string{}
 		if cell.Env != "" {
